@@ -276,7 +276,7 @@ func TestC11(t *testing.T) {
 	r.Assume("/proc/self/smaps is the kernel's ground truth for protection and mlock state", "core dumps are disabled process-wide by the memguard core package (RLIMIT_CORE=0), which the oracle accepts in place of MADV_DONTDUMP")
 	sizes := []int{1, 31, 32, 33, 4095, 4096, 4097, 12288, 12289}
 	L := ev.Pick(3, 5)
-	smapsEvery := ev.Pick(37, 11)
+	smapsEvery := ev.Pick(37, 29)
 	n := 0
 	for _, impl := range []string{"protectedmemory", "memguard"} {
 		for si, size := range sizes {
